@@ -48,8 +48,7 @@ Proof. unfold dom, go_init; cbn. lia. Qed.
 Lemma go_step_dom w a k v a' : dom a -> arg_ok (k, v) -> go_step w a k v = Some a' -> dom a'.
 Proof.
   unfold dom, arg_ok. cbn [fst snd]. intros D OK H.
-  destruct k; cbn [go_step] in H; try (destruct w); try (injection H as <-); cbn; try lia;
-    destruct ((-128 <=? v) && (v <=? 127)); try discriminate; injection H as <-; cbn; lia.
+  destruct k; cbn [go_step] in H; try (destruct w); injection H as <-; cbn; lia.
 Qed.
 
 Lemma go_loop_dom w args : forall a a', dom a -> Forall arg_ok args -> go_loop w a args = Some a' -> dom a'.
